@@ -203,6 +203,10 @@ def run(ctx):
         [("new", 1), ("new", 1), ("register", 0, 3), ("diagnose", 1, {}), ("diagnose", 0, {})],
         [("new", 0), ("register", 0, 2), ("diagnose", 0, {"extra_a": 4}), ("new", 1), ("diagnose", 1, {}),
          ("diagnose", 0, {})],
+        # custom instances (no default functions): registrations and kwargs of one must not reach another, present or later
+        [("new", 0), ("new", 0), ("register", 0, 3), ("diagnose", 1, {}), ("diagnose", 0, {})],
+        [("new", 0), ("register", 0, 2), ("diagnose", 0, {"extra_a": 4}), ("new", 0), ("register", 1, 1), ("diagnose", 1, {}),
+         ("diagnose", 0, {})],
     ]
     histories = fixed + [gen_history(ctx.rng, ctx.rng.randint(4, 12)) for _ in range(n_hist)]
     all_requests, expect = [], []
